@@ -1,6 +1,8 @@
 package main
 
 import (
+	"strconv"
+	"strings"
 	"fmt"
 	"math"
 	"time"
@@ -34,7 +36,7 @@ func init() {
 
 func c07pool(r func(int) int, extra int) []*variants.Variant {
 	pool := valuePool(true)
-	defer func() { c07base = c07twins - 29 }()
+	defer func() { c07base = c07twins - 29 - 18 }()
 	pool = append(pool,
 		variants.VariantFromInteger(1<<53), variants.VariantFromInteger(1<<53+1), variants.VariantFromLong(1<<53+1), variants.VariantFromLong(-(1 << 53)),
 		variants.VariantFromLong(1<<60+1<<36+1), variants.VariantFromLong(-(1<<60 + 1<<36 + 1)), variants.VariantFromLong(1<<60+3<<36-1), variants.VariantFromInteger(1<<60+1<<36+1),
@@ -52,6 +54,11 @@ func c07pool(r func(int) int, extra int) []*variants.Variant {
 	}
 	pool = append(pool, variants.VariantFromDouble(math.Copysign(0, -1)), variants.VariantFromFloat(1), variants.VariantFromLong(int64(math.Float32bits(1))),
 		variants.VariantFromString("70"), variants.VariantFromString("5"), variants.VariantFromString("true"), variants.VariantFromString("1.5"), variants.VariantFromString("1"))
+	// instants inside the hour that a daylight-saving zone repeats / skips, carried in that zone and in UTC
+	for _, u := range []int64{1636263000, 1636266600, 1635640200, 1635643800, 1616893200, 1615705200} {
+		pool = append(pool, variants.VariantFromDateTime(time.Unix(u, 0).In(zone("America/New_York"))), variants.VariantFromDateTime(time.Unix(u, 0).In(zone("Europe/Berlin"))),
+			variants.VariantFromLong(u))
+	}
 	c07twins = len(pool)
 	for i := 0; i < extra; i++ {
 		switch r(6) {
@@ -84,7 +91,24 @@ func c07values() []*variants.Variant {
 
 func convCall(mgr string, v *variants.Variant, to string) (string, *variants.Variant, string) {
 	m := c06mgr(mgr)
-	return opOutcome(func() (*variants.Variant, error) { return m.Convert(v, vtypeByName[to]) })
+	return opOutcome(func() (*variants.Variant, error) { return m.Convert(v, typeCode(to)) })
+}
+
+// typeCode: the variant type of a name, or the number after '#' (a code that names no type)
+func typeCode(to string) variants.VariantType {
+	if strings.HasPrefix(to, "#") {
+		n, _ := strconv.Atoi(to[1:])
+		return variants.VariantType(n)
+	}
+	return vtypeByName[to]
+}
+
+func zone(name string) *time.Location {
+	l, err := time.LoadLocation(name)
+	if err != nil {
+		panic(err)
+	}
+	return l
 }
 
 func numInfo(v *variants.Variant) (le53, integral bool) {
@@ -111,6 +135,7 @@ func numInfo(v *variants.Variant) (le53, integral bool) {
 
 func execC07(seg []Ev) []Ev {
 	out := make([]Ev, 0, len(seg))
+	defer func() { time.Local = c08hostZone }()
 	// state of a history segment: one long-lived manager, one reusable source variant, every result handed out so far
 	var hm variants.IVariantOperations
 	var hsrc *variants.Variant
@@ -119,11 +144,18 @@ func execC07(seg []Ev) []Ev {
 	for _, in := range seg {
 		c07extra = toInt(in["extra"])
 		c07seed = int64(toInt(in["pseed"]))
+		time.Local = c08hostZone
+		if hz, ok := in["hostzone"]; ok { // the host's local zone has daylight saving
+			time.Local = zone(toStr(hz))
+		}
 		pool := c07values()
 		vi := toInt(in["vi"])
 		v := pool[vi%len(pool)]
 		op := toStr(in["op"])
 		e := Ev{"op": op, "vi": vi, "extra": c07extra, "pseed": int(c07seed), "v": valJSON(v)}
+		if hz, ok := in["hostzone"]; ok {
+			e["hostzone"] = hz
+		}
 		switch op {
 		case "hstart":
 			hm, hsrc, held = c06mgr(toStr(in["mgr"])), variants.EmptyVariant(), nil
@@ -224,6 +256,23 @@ func genC07(g *Gen) {
 			}
 			seg = append(seg, mk("op", "hend", "vi", 0))
 			g.Run("long conversion histories on one manager", seg)
+		}
+	}
+	// type codes that name no type
+	for vi := 0; vi < n; vi += 7 {
+		for _, code := range []string{"#-1", "#11", "#12", "#99", "#-2147483648", "#2147483647"} {
+			for _, mgr := range []string{"unsafe", "safe"} {
+				g.Run("type codes that name no type", []Ev{mk("op", "conv", "mgr", mgr, "vi", vi, "to", code)})
+			}
+		}
+	}
+	// a host whose local zone has daylight saving: date-times built from Unix seconds around the repeated / skipped hours
+	for _, hz := range []string{"America/New_York", "Europe/Berlin", "Australia/Lord_Howe"} {
+		for vi := c07base; vi < c07twins; vi++ {
+			for _, via := range []string{"DateTime", "Long", "Integer", "String", "TimeSpan"} {
+				g.Run("host zone with daylight saving", []Ev{mk("op", "chain", "vi", vi, "via", via, "hostzone", hz)})
+				g.Run("host zone with daylight saving", []Ev{mk("op", "conv", "mgr", "unsafe", "vi", vi, "to", via, "hostzone", hz)})
+			}
 		}
 	}
 	for vi := 0; vi < n; vi++ {
